@@ -7,18 +7,26 @@ class CmpBoom(Exception):
     pass
 
 
+class CmpBoomT(CmpBoom, TypeError):
+    """The same fault as a TypeError: what an ordinary failing comparison
+    raises ('<' not supported between ...), and what code that translates
+    TypeError from a key CONVERSION must not confuse it with."""
+
+
 class _State:
     count = 0          # comparisons seen since last reset
     fail_at = 0        # raise CmpBoom at this count (0 = never)
     callback = None    # called on every comparison while armed
     armed = False
     fired = 0
+    boom = CmpBoom     # class raised at fail_at (CmpBoom or CmpBoomT)
 
 
 S = _State
 
 
 def reset():
+    S.boom = CmpBoom
     S.count = 0
     S.fail_at = 0
     S.callback = None
@@ -55,7 +63,7 @@ def _tick():
             S.armed = True
     if S.fail_at and S.count == S.fail_at:
         S.fired += 1
-        raise CmpBoom(S.count)
+        raise S.boom(S.count)
 
 
 class FKey:
